@@ -201,9 +201,15 @@ def exprCCL : Expr → Bool
   | .member _ _ b _ _ => exprCCL b
   | .cast _ _ e => exprCCL e
   | .blockE b => blockCCL b
-  | .ifE _ _ c t e => exprCCL c || blockCCL t || (match e with | some b => blockCCL b | none => false)
-  | .matchE _ _ c arms d => exprCCL c || armsCCL arms || (match d with | some e => exprCCL e | none => false)
+  | .ifE _ _ c t e => exprCCL c || blockCCL t || optBlockCCL e
+  | .matchE _ _ c arms d => exprCCL c || armsCCL arms || optExprCCL d
   | .tryE _ _ t _ c => blockCCL t || blockCCL c
+def optExprCCL : Option Expr → Bool
+  | none => false
+  | some e => exprCCL e
+def optBlockCCL : Option Block → Bool
+  | none => false
+  | some b => blockCCL b
 def listCCL : List Expr → Bool
   | [] => false
   | e :: es => exprCCL e || listCCL es
@@ -222,14 +228,14 @@ def stmtCCL : Stmt → Bool
   | .typedef _ => false
   | .trigger _ _ _ _ args => argsCCL args
   | .letS _ _ _ _ _ e => exprCCL e
-  | .ret _ e => (match e with | some e => exprCCL e | none => false)
+  | .ret _ e => optExprCCL e
   | .brk _ | .cont _ => true
   | .loopS .. => false
   | .whileS _ c _ => exprCCL c
   | .forS _ _ _ it _ => exprCCL it
   | .exprS _ e => exprCCL e
 def blockCCL : Block → Bool
-  | .mk _ _ stmts e => stmtsCCL stmts || (match e with | some e => exprCCL e | none => false)
+  | .mk _ _ stmts e => stmtsCCL stmts || optExprCCL e
 def stmtsCCL : List Stmt → Bool
   | [] => false
   | s :: ss => stmtCCL s || stmtsCCL ss
